@@ -465,6 +465,15 @@ def _symbolic_for(interp, s, frame, state, space, promoted=None):
                 continue
             pend_scal.remove(name)
             progress = True
+        # carried scalars with a closed form (accumulations): their value at the start of iteration i is substituted for the havoc
+        # constant in the other effects (array stores, written texts) before those are analysed
+        done_res = {a.get_id() for a, _ in resolved}
+        for name, summ in summary_env.items():
+            if summ[0] == "sum" and name in scal_h and isinstance(scal_h[name], SV) and pre_env.get(name, _MISSING) is not _MISSING \
+                    and scal_h[name].t.get_id() not in done_res:
+                closed = _instantiate(summ, i, iz, lo, pre_env[name], const_closed=not merged)
+                if sv.is_scalar(norm(closed)):
+                    resolved.append((scal_h[name].t, sv.znum(closed) if not scal_h[name].is_real else sv.zr(closed)))
         for sid in list(pend_arr):
             shape, dt, hfn = arr_h[sid]
             idx = tuple(sv.fresh_int("x") for _ in shape)
@@ -516,13 +525,13 @@ def _symbolic_for(interp, s, frame, state, space, promoted=None):
         if sid in obj_summ:
             summary_heap[sid] = obj_summ[sid]
             continue
-        summary_heap[sid] = _summarise_cell(interp, sid, pre_heap[sid], heap_h, st1, iz, lo, hi, hv_consts, hv_funcs, guarded=merged)
+        summary_heap[sid] = _summarise_cell(interp, sid, pre_heap[sid], heap_h, st1, iz, lo, hi, hv_consts, hv_funcs, guarded=merged, resolved=resolved)
     # ---- build state(k) and check init / step
     def state_at(k):
         env = dict(pre_env)
         heap = dict(pre_heap)
         for name, summ in summary_env.items():
-            env[name] = _instantiate(summ, k, iz, lo, pre_env.get(name, _MISSING))
+            env[name] = _instantiate(summ, k, iz, lo, pre_env.get(name, _MISSING), const_closed=not merged)
         for sid, summ in summary_heap.items():
             heap[sid] = summ(k)
         return env, heap
@@ -876,10 +885,16 @@ def _summarise_value(interp, name, pre, post, hv, iz, lo, hi, hv_consts, hv_func
     return ("last_obj", post)
 
 
-def _instantiate(summ, k, iz, lo, pre):
+def _instantiate(summ, k, iz, lo, pre, const_closed=False):
     kind = summ[0]
     if kind == "sum":
         delta = summ[1]
+        if const_closed and CONST_SUM_CLOSED[0]:
+            if isinstance(delta, SV):
+                delta = A.simp(delta)
+            if is_conc(norm(delta)):
+                # constant increment: c (k - lo); every instantiation of the loop rule has k >= lo unless the zero-trip case was merged
+                return A.simp(sv.add(pre, sv.mul(delta, sv.sub(k, lo))))
         return sv.add(pre, _iter_sum(lo, k, delta, iz, []))
     if kind == "last":
         # value produced by iteration k-1
@@ -1493,7 +1508,7 @@ def _mentions(t, c):
     return False
 
 
-def _summarise_cell(interp, sid, pre_cell, heap_h, st1, iz, lo, hi, hv_consts, hv_funcs, guarded=False):
+def _summarise_cell(interp, sid, pre_cell, heap_h, st1, iz, lo, hi, hv_consts, hv_funcs, guarded=False, resolved=()):
     """non-array heap cells touched by the body: python lists (append), dataframes (column updates), objects"""
     post_cell = st1.heap[sid]
     if pre_cell.kind == "list":
@@ -1566,7 +1581,7 @@ def _summarise_cell(interp, sid, pre_cell, heap_h, st1, iz, lo, hi, hv_consts, h
         raise EngineError("list mutated in a symbolic loop in an unsupported way")
     if pre_cell.kind == "file":
         if pre_cell.data.get("mode") == "w":
-            return _summarise_file_cell(pre_cell, post_cell, iz, lo, hi, hv_consts, hv_funcs)
+            return _summarise_file_cell(pre_cell, post_cell, iz, lo, hi, hv_consts, hv_funcs, resolved)
         hp = heap_h[sid].data["pos"]
         d = sv.sub(post_cell.data["pos"], hp)
         dts = [z3.simplify(t) for t in _terms_of(d)]
@@ -1613,7 +1628,7 @@ def _summarise_cell(interp, sid, pre_cell, heap_h, st1, iz, lo, hi, hv_consts, h
     raise EngineError(f"heap cell of kind {pre_cell.kind} modified in a symbolic loop")
 
 
-def _summarise_file_cell(pre_cell, post_cell, iz, lo, hi, hv_consts, hv_funcs):
+def _summarise_file_cell(pre_cell, post_cell, iz, lo, hi, hv_consts, hv_funcs, resolved=()):
     """a file handle used inside a symbolic loop.
     reading: every iteration advances the position by a constant number of lines -> pos(k) = pos0 + c (k - lo);
     writing: every iteration appends items -> one Block(var, lo, k, items(var)) after the pre-existing items."""
@@ -1633,6 +1648,9 @@ def _summarise_file_cell(pre_cell, post_cell, iz, lo, hi, hv_consts, hv_funcs):
     if post_items[:len(pre_items)] != pre_items:
         raise EngineError("file items rewritten inside a loop")
     added = post_items[len(pre_items):]
+    if resolved:
+        from .text import subst_item
+        added = tuple(subst_item(x, list(resolved)) for x in added)
     for t in _item_terms(added):
         if _contains_any(t, hv_consts, hv_funcs):
             raise EngineError("text written inside a loop depends on loop-carried state — needs a written summary")
@@ -1679,6 +1697,8 @@ def _file_cells_equal(a, b):
             out.append(x)
         return out
     na, nb = norm_items(ia), norm_items(ib)
+    if len(na) == len(nb) and all((x is y) or (x == y) for x, y in zip(na, nb)):
+        return []
     if len(nb) >= 1 and isinstance(nb[-1], Block):
         blk = nb[-1]
         m = len(blk.items)
@@ -2178,3 +2198,116 @@ def _promote(pre_env, pre_heap, fr_p, st_p, st):
     if not gmap:
         return None
     return env, gmap
+
+
+# ----------------------------------------------------------------------------------------------
+# map loops:  for x in <symbolic sequence>: ...; L1.append(e1(x)); L2.append(e2(x))
+
+
+def map_append_rule(interp, s, frame, st, lo, hi, item_fn):
+    """Rule for a symbolic loop whose only effect is to append ONE element per iteration to some lists that are empty
+    before the loop and are not otherwise used in the body, the element depending on the iteration only (no loop-carried
+    variable, no store into existing storage).  The body may fork (if/else): no merge is made.  The lists become
+    symbolic sequences of length hi - lo whose element p is obtained by executing the body AT iteration lo + p when the
+    element is read — a branch of the body is then a branch of the reading statement (Fork), so aliasing and path
+    conditions of each branch stay exact.  Conditions (checked here, the rule declines with NotImplemented otherwise):
+      * syntactic: the list names occur in the body only as top-level statements `L.append(expr)`, one per list; no
+        break/continue/return; no else clause;
+      * one discovery execution at a fresh index (every path): every path ends normally, leaves every pre-existing heap
+        cell untouched except that each list grew by one element, reads no variable assigned in the body before assigning
+        it (such variables are removed from the environment of the discovery run), its side obligations are recorded.
+    Variables assigned in the body are unbound after the loop.  Reads of an element evaluate the body against the heap
+    content of the loop's pre-state (numpy evaluates eagerly)."""
+    if s.orelse:
+        return NotImplemented
+    body = s.body
+    lists = {}
+    for b in body:
+        if isinstance(b, ast.Expr) and isinstance(b.value, ast.Call) and isinstance(b.value.func, ast.Attribute) \
+                and b.value.func.attr == "append" and isinstance(b.value.func.value, ast.Name) and len(b.value.args) == 1 and not b.value.keywords:
+            nm = b.value.func.value.id
+            if nm in lists:
+                return NotImplemented
+            lists[nm] = b
+    if not lists:
+        return NotImplemented
+    allowed = {id(b.value.func.value) for b in lists.values()}
+    for b in body:
+        for n in ast.walk(b):
+            if isinstance(n, (ast.Return, ast.Break, ast.Continue)):
+                return NotImplemented
+            if isinstance(n, ast.Name) and n.id in lists and id(n) not in allowed:
+                return NotImplemented
+    refs = {}
+    for nm in lists:
+        v = frame.env.get(nm)
+        if not (isinstance(v, Ref) and v.kind == "list"):
+            return NotImplemented
+        c = st.heap[v.sid].data
+        if isinstance(c, A.SeqVal) or len(c) != 0:
+            return NotImplemented
+        refs[nm] = v
+    sids = {v.sid for v in refs.values()}
+    if len(sids) != len(refs):
+        return NotImplemented
+    # no other reference to the lists (environment or heap)
+    for k, v in frame.env.items():
+        if isinstance(v, Ref) and v.sid in sids and k not in refs:
+            return NotImplemented
+    for c in st.heap.values():
+        vals = c.data.values() if isinstance(c.data, dict) else (c.data if isinstance(c.data, (tuple, list)) else ())
+        for v in vals:
+            if isinstance(v, Ref) and v.sid in sids:
+                return NotImplemented
+    try:
+        if not interp.decide(sv.cmp(">=", hi, lo)):
+            return NotImplemented
+    except Fork:
+        return NotImplemented
+    where = f"{frame.fname}:{s.lineno}"
+    assigned = _assigned_names(body) | _assigned_names([ast.Assign(targets=[s.target], value=ast.Constant(0))])
+    env0 = {k: v for k, v in frame.env.items() if k not in assigned}
+    heap0 = dict(st.heap)
+    # ---- discovery at a fresh iteration
+    k = sv.fresh_int("m")
+    fr = Frame(frame.module, dict(env0), frame.fname)
+    st2 = st.fork()
+    st2.pc = list(st.pc) + [sv.zb(sv.cmp(">=", k, lo)), sv.zb(sv.cmp("<", k, hi))]
+    with use_state(st2):
+        interp.assign(s.target, item_fn(k), fr)
+        outs = interp.exec_block_paths(body, fr, st2)
+    for fr1, st1, out in outs:
+        if out[0] != "normal":
+            return NotImplemented
+        for sid, c in heap0.items():
+            if sid in sids:
+                d = st1.heap[sid].data
+                if isinstance(d, A.SeqVal) or len(d) != 1:
+                    return NotImplemented
+            elif st1.heap.get(sid) is not c:
+                return NotImplemented
+    order = sorted(refs, key=lambda nm: refs[nm].sid)
+
+    def element(p, nm):
+        cst = cur()
+        saved = cst.heap
+        work = dict(saved)
+        work.update(heap0)
+        before = set(work)
+        cst.heap = work
+        try:
+            f2 = Frame(frame.module, dict(env0), frame.fname)
+            interp.assign(s.target, item_fn(A.simp(sv.add(lo, p))), f2)
+            interp.exec_body_single(body, f2)
+            val = cst.heap[refs[nm].sid].data[-1]
+        finally:
+            new = {sid: c for sid, c in cst.heap.items() if sid not in before}
+            cst.heap = saved
+            saved.update(new)
+        return val
+    n = A.simp(sv.sub(hi, lo))
+    for nm in order:
+        st.heap[refs[nm].sid] = Content("list", A.SeqVal(n, (lambda p, nm=nm: element(p, nm))), st.heap[refs[nm].sid].meta)
+    for nm in assigned:
+        frame.env[nm] = UnboundAfterLoop(nm, where)
+    return None
